@@ -356,56 +356,13 @@ impl Calibrations {
                         let mut instructions = calibration.instructions.clone();
 
                         for instruction in instructions.iter_mut() {
-                            match instruction {
-                                Instruction::Gate(Gate { qubits, .. })
-                                | Instruction::Delay(Delay { qubits, .. })
-                                | Instruction::Capture(Capture {
-                                    frame: FrameIdentifier { qubits, .. },
-                                    ..
-                                })
-                                | Instruction::RawCapture(RawCapture {
-                                    frame: FrameIdentifier { qubits, .. },
-                                    ..
-                                })
-                                | Instruction::SetFrequency(SetFrequency {
-                                    frame: FrameIdentifier { qubits, .. },
-                                    ..
-                                })
-                                | Instruction::SetPhase(SetPhase {
-                                    frame: FrameIdentifier { qubits, .. },
-                                    ..
-                                })
-                                | Instruction::SetScale(SetScale {
-                                    frame: FrameIdentifier { qubits, .. },
-                                    ..
-                                })
-                                | Instruction::ShiftFrequency(ShiftFrequency {
-                                    frame: FrameIdentifier { qubits, .. },
-                                    ..
-                                })
-                                | Instruction::ShiftPhase(ShiftPhase {
-                                    frame: FrameIdentifier { qubits, .. },
-                                    ..
-                                })
-                                | Instruction::Pulse(Pulse {
-                                    frame: FrameIdentifier { qubits, .. },
-                                    ..
-                                })
-                                | Instruction::Fence(Fence { qubits }) => {
-                                    // Swap all qubits for their concrete implementations
-                                    for qubit in qubits {
-                                        match qubit {
-                                            Qubit::Variable(name) => {
-                                                if let Some(expansion) = qubit_expansions.get(name)
-                                                {
-                                                    *qubit = expansion.clone();
-                                                }
-                                            }
-                                            Qubit::Fixed(_) | Qubit::Placeholder(_) => {}
-                                        }
+                            // Swap all qubits for their concrete implementations
+                            for qubit in instruction.get_qubits_mut() {
+                                if let Qubit::Variable(name) = qubit {
+                                    if let Some(expansion) = qubit_expansions.get(name) {
+                                        *qubit = expansion.clone();
                                     }
                                 }
-                                _ => {}
                             }
 
                             instruction.apply_to_expressions(|expr| {
@@ -428,21 +385,36 @@ impl Calibrations {
                     Some(calibration) => {
                         let mut instructions = calibration.instructions.clone();
                         for instruction in instructions.iter_mut() {
-                            match instruction {
-                                Instruction::Pragma(pragma)
-                                    if pragma.name == "LOAD-MEMORY"
-                                        && pragma.data == calibration.identifier.target =>
-                                {
-                                    if let Some(target) = &measurement.target {
+                            // The calibration's qubit variable stands for the measured qubit
+                            if let Qubit::Variable(variable) = &calibration.identifier.qubit {
+                                for qubit in instruction.get_qubits_mut() {
+                                    if matches!(qubit, Qubit::Variable(name) if name == variable) {
+                                        *qubit = measurement.qubit.clone();
+                                    }
+                                }
+                            }
+
+                            // The calibration's target name stands for the measurement's target
+                            if let (Some(target_name), Some(target)) =
+                                (&calibration.identifier.target, &measurement.target)
+                            {
+                                match instruction {
+                                    Instruction::Pragma(pragma)
+                                        if pragma.name == "LOAD-MEMORY"
+                                            && pragma.data.as_ref() == Some(target_name) =>
+                                    {
                                         pragma.data = Some(target.to_quil_or_debug())
                                     }
-                                }
-                                Instruction::Capture(capture) => {
-                                    if let Some(target) = &measurement.target {
-                                        capture.memory_reference = target.clone()
+                                    Instruction::Capture(Capture {
+                                        memory_reference, ..
+                                    })
+                                    | Instruction::RawCapture(RawCapture {
+                                        memory_reference, ..
+                                    }) if &memory_reference.name == target_name => {
+                                        *memory_reference = target.clone()
                                     }
+                                    _ => {}
                                 }
-                                _ => {}
                             }
                         }
                         Some((
